@@ -113,6 +113,10 @@ func c01exec(c *h.Ctx, cs *h.Case) {
 		c01inst(c, cs)
 		return
 	}
+	if len(cs.Ops) > 0 && strings.HasPrefix(cs.Ops[0], "c01 nstart ") {
+		c01net(c, cs)
+		return
+	}
 	if len(cs.Ops) > 0 && strings.HasPrefix(cs.Ops[0], "c01 send ") {
 		c01send(c, cs)
 		return
@@ -491,6 +495,7 @@ func c01gen(c *h.Ctx, yield func(*h.Case)) {
 	}
 	c01sendGen(c, yield)
 	c01instGen(c, yield)
+	c01netGen(c, yield)
 	for n := 0; n < c.Pick(12, 150); n++ {
 		tcp := 0
 		if n%3 == 2 {
